@@ -68,7 +68,10 @@ CORE_RULE = ("One evaluation = one seeded execution of the core workload (2-4 th
              "schedule trace in TOKEN mode, of the recorded history in FREE mode; distinct_nontrivial is the size of the union of these "
              "hashes over all shards. Where the plan has `miri.sb` jobs, one evaluation of those = one round of a store-buffering litmus test "
              "(T1: write(x); read flag or container y / T2: set flag or write(y); read x; the outcome in which neither sees the other is forbidden) "
-             "under one Miri seed; rounds are counted per (shape, write operation, read flavour, strategy). Every core plan also has a `life.token` job (the "
+             "under one Miri seed; rounds are counted per (shape, write operation, read flavour, strategy). Every core plan also has `x.` jobs: the wrap workload with its scripted full-cycle scenarios, the multi-container profile c12, and `x.pair`: a "
+             "systematic exploration in which one read meets one write under every schedule of the shape (first thread i step points, second thread j step points, first to "
+             "the end, second to the end), for all i and j, both orders, reader on the fast path / the helping path / the fallback-only strategy (about 84 000 schedules "
+             "in the quick tier, each judged by all core oracles), a `life.token` job (the "
              "thread-lifecycle workload of C10/C11 with this check's operation profile) and a `weak.token` job (the core workload on containers of Weak).")
 
 WINDOW_PATHS = ["load.fast_confirmed", "load.fast_changed_debt_returned", "load.fast_changed_prepaid", "load.fallback_confirmed",
@@ -99,8 +102,10 @@ def miri_sb_jobs(pid, tier, write="all", quick_seeds=32, thorough_seeds=512):
 def cross_jobs(pid, tier, profile):
     """Reach that every check over the core machinery gets regardless of its own operation profile (third round of seeded changes: changes filed under
     one property needed several containers, the counter wrap or a thread exit to show): the multi-container profile and the wrap workload with its
-    scripted full-cycle scenarios, both TOKEN-scheduled."""
-    js = [{"name": pid + ".x.wrap.token", "flavour": "native", "args": ["wrap", "mode=token", "reps=1", "nshards=1"], "shards": 1, "threads": 3, "timeout": 1200}]
+    scripted full-cycle scenarios, both TOKEN-scheduled, and the systematic two-thread exploration (wl_pair)."""
+    js = [{"name": pid + ".x.wrap.token", "flavour": "native", "args": ["wrap", "mode=token", "reps=1", "nshards=1"], "shards": 1, "threads": 3, "timeout": 1200},
+          # systematic: every two-cut schedule (i, j) of one read against one write, both orders, fast path / helping path / fallback-only strategy
+          {"name": pid + ".x.pair.token", "flavour": "native", "args": ["pair"] + (["nshards=4"] if tier == "quick" else ["full", "nshards=8"]), "shards": T(tier, 4, 8), "threads": 2, "timeout": 2400}]
     if profile != "c12":
         js.append(core_token(pid + ".x.c12.token", "c12", T(tier, 1200, 30000), shards=2))
     return js
